@@ -943,6 +943,16 @@ func rangeScanFacts() {
 	}
 	iClose := strings.Index(b, "defer close(ch)")
 	iExec := strings.Index(b, "c.executor.ExecuteRangeScan(")
+	// the multi-shard list closes its result channel only after every shard goroutine has returned: the wait
+	// does not end with the caller's context
+	lf := funcDecl(f, "clientImpl", "List")
+	lb := ""
+	if lf != nil {
+		lb = squash(src(lf.Body))
+	}
+	add("listClosesChannelAfterAllShards", "Bool", boolLean(strings.Contains(lb, "go func() { _ = wg.Wait(context.Background()) close(ch) }()") &&
+		!strings.Contains(lb, "wg.Wait(ctx)") && strings.Contains(lb, "defer wg.Done() c.listFromShard(")),
+		"oxia/async_client_impl.go: (*clientImpl).List", "the goroutine that closes the channel waits for all shards with a context that is never cancelled")
 	add("rangeScanClosesChannelOnAllPaths", "Bool", boolLean(iClose >= 0 && iExec > iClose), "oxia/async_client_impl.go: (*clientImpl).rangeScanFromShard",
 		"the close of the result channel is deferred before the request is made")
 }
